@@ -281,14 +281,33 @@ class Encoder:
                     if ekind == 'parked':
                         t.park_locs[dst] = enode.ev
                 # classify the source location by its first (blocking) operation
-                if kind == 'at' and node.kind == 'ev':
-                    if node.ev.kind == 'lock':
-                        t.lock_locs[src] = node.ev.obj
-                    elif node.ev.kind == 'recv':
-                        t.recv_locs[src] = node.ev.obj
+                if kind == 'at':
+                    fb = self._first_blocking(node)
+                    if fb is not None:
+                        if fb.ev.kind == 'lock':
+                            t.lock_locs[src] = fb.ev.obj
+                        elif fb.ev.kind == 'recv':
+                            t.recv_locs[src] = fb.ev.obj
             for c in t.cmds:
                 c.idx = len(self.cmds)
                 self.cmds.append(c)
+
+    def _first_blocking(self, node):
+        """the first scheduling-relevant event of the command that starts at node (thread-local events such as observations
+        before it belong to the same command)"""
+        n = node
+        for _ in range(64):
+            if n is None:
+                return None
+            if n.kind in ('root', 'hop'):
+                n = n.children.get('next')
+                continue
+            if n.kind != 'ev':
+                return None
+            if n.ev.kind != 'observe':
+                return n
+            n = n.children.get('next')
+        return None
 
     def _walk(self, kind, node):
         """enumerate (steps, end) from a location"""
@@ -313,7 +332,8 @@ class Encoder:
             if ev.kind in ('wait', 'wait_timeout'):
                 out.append((st, ('parked', n)))
                 return
-            rec(n.children['next'], st, False)
+            # thread-local events (observations) in front of the command's scheduling point do not use it up
+            rec(n.children['next'], st, first and ev.kind == 'observe')
         if kind == 'parked':
             rec(node.children['next'], [('wake', node.ev)], False)
         else:
